@@ -123,13 +123,19 @@ RIGHT_ATOMS = [
     ("q!=0", ["q"], lambda d, cm: _c(d, cm, "q") != 0),
     ("p<q", ["p", "q"], lambda d, cm: _c(d, cm, "p") < _c(d, cm, "q")),
 ]
+# the right frame's `w` in merges where both sides have a `w` (only offered in those contexts)
+RIGHT_W_ATOMS = [
+    ("rw==cd", ["rw"], lambda d, cm: _c(d, cm, "rw") == "cd"),
+    ("rw.isna", ["rw"], lambda d, cm: _c(d, cm, "rw").isna()),
+]
+RIGHT_REDUCTION_ATOM = ("q>q.mean", ["q"], lambda d, cm: _c(d, cm, "q") > _c(d, cm, "q").mean())
 KEY_ATOMS = [
     ("key>1", ["key"], lambda d, cm: _c(d, cm, "key") > 1),
     ("key!=3", ["key"], lambda d, cm: _c(d, cm, "key") != 3),
     ("key.isin", ["key"], lambda d, cm: _c(d, cm, "key").isin([2, 4, 6])),
     ("key<=2", ["key"], lambda d, cm: _c(d, cm, "key") <= 2),
 ]
-ATOMS = {a[0]: a for a in LEFT_ATOMS + RIGHT_ATOMS + KEY_ATOMS + [REDUCTION_ATOM]}
+ATOMS = {a[0]: a for a in LEFT_ATOMS + RIGHT_ATOMS + KEY_ATOMS + RIGHT_W_ATOMS + [REDUCTION_ATOM, RIGHT_REDUCTION_ATOM]}
 
 
 def pred_fn(tree, binding):
@@ -204,6 +210,15 @@ PLAIN_CONTEXTS = {
     "series_filter": lambda lib, d, r, P: d.rid[P(d)].to_frame(),
     "concat_filter": lambda lib, d, r, P: (lambda e: e[P(e)])(_concat(lib, [d, d])),
     "clip_round": lambda lib, d, r, P: (lambda e: e[P(e)])(d.assign(x=d.x.clip(0, 2.5).round())),
+    # value-changing casts below the filter: the predicate must see the cast values
+    "astype_bool": lambda lib, d, r, P: (lambda e: e[P(e)])(d.astype({"y": "bool"})),
+    "astype_int_trunc": lambda lib, d, r, P: (lambda e: e[P(e)])(d.assign(x=d.x.fillna(0.0) * 0.75).astype({"x": "int64"})),
+    # stacked filters whose other predicate is not element-wise (it depends on which rows the inner filter kept)
+    "stacked_cumsum_outer": lambda lib, d, r, P: (lambda e: e[e.rid.cumsum() > 300])(d[P(d)]),
+    "stacked_shift_outer": lambda lib, d, r, P: (lambda e: e[e.rid.shift(1) > 20])(d[P(d)]),
+    "stacked_diff_outer": lambda lib, d, r, P: (lambda e: e[e.rid.diff() > 1])(d[P(d)]),
+    "stacked_cumsum_inner": lambda lib, d, r, P: (lambda e: e[P(e)])(d[d.rid.cumsum() > 300]),
+    "stacked_cumcount_and": lambda lib, d, r, P: (lambda e: e[P(e) & (e.rid.cumsum() > 300)])(d[d.key > 0]),
     "replace_isin": lambda lib, d, r, P: (lambda e: e[P(e)])(d.assign(y=d.y.replace(0.0, 2.0))),
 }
 
@@ -220,7 +235,7 @@ HOWS = ["inner", "left", "right", "outer", "leftsemi"]
 SIDES = ["left", "right", "both", "key"]
 
 
-def merge_context(how, side, collision, other_consumer, where="after"):
+def merge_context(how, side, collision, other_consumer, where="after", suffixes=None):
     """Filter above a merge.  L: x,y,z,w,rid,key ; R: key,p,q,(w if collision),rid_r"""
     def f(lib, d, r, P):
         rr = r if collision else r.drop(columns=["w"])
@@ -232,8 +247,12 @@ def merge_context(how, side, collision, other_consumer, where="after"):
                 m = ll.merge(rr, on="key", how="leftsemi")
             cm = {}
         else:
-            m = ll.merge(rr, on="key", how=how)
-            cm = {"w": "w_x"} if collision else {}
+            if suffixes:
+                m = ll.merge(rr, on="key", how=how, suffixes=tuple(suffixes))
+                cm = {"w": "w" + suffixes[0], "rw": "w" + suffixes[1]}
+            else:
+                m = ll.merge(rr, on="key", how=how)
+                cm = {"w": "w_x", "rw": "w_y"} if collision else {}
         out = m[P(m, cm)]
         if other_consumer:
             # the merged (filtered-from) frame has another consumer
@@ -271,6 +290,10 @@ def contexts_for(tier):
             for collision in (False, True):
                 for oc in (False, True):
                     ctx[f"merge:{how}:{side}:{'coll' if collision else 'nocoll'}:{'shared' if oc else 'single'}"] = merge_context(how, side, collision, oc)
+    for how in ("inner", "left", "right", "outer"):
+        for side in ("left", "right", "both"):
+            for sfx in (("_l", ""), ("", "_r")):
+                ctx[f"merge:{how}:{side}:collsfx{'L' if sfx[0] else 'R'}:single"] = merge_context(how, side, True, False, suffixes=sfx)
     for fs in ("fsspec", "arrow"):
         for uf in (False, True):
             for cols in (False, True):
@@ -290,6 +313,14 @@ def atom_pool(ctxname, rng, allow_reduction):
             pool = KEY_ATOMS
         else:
             pool = LEFT_ATOMS + RIGHT_ATOMS + KEY_ATOMS
+        pool = list(pool)
+        coll = ctxname.split(":")[3]
+        if coll != "nocoll" and side in ("right", "both") and how != "leftsemi":
+            pool += RIGHT_W_ATOMS
+        if allow_reduction and side in ("left", "both"):
+            pool.append(REDUCTION_ATOM)
+        if allow_reduction and side in ("right", "both") and how != "leftsemi":
+            pool.append(RIGHT_REDUCTION_ATOM)
         return [a[0] for a in pool]
     pool = [a[0] for a in LEFT_ATOMS + KEY_ATOMS]
     if ctxname.startswith("parquet"):
